@@ -4,6 +4,7 @@ import (
 	"encoding/json"
 	"fmt"
 	"hash/fnv"
+	"os"
 	"sort"
 	"strings"
 
@@ -180,6 +181,44 @@ func scMaybeProject(pc *proto.Case, r *scRender) {
 		pc.Files["luahelper.json"] = fmt.Sprintf(`{"ShowWarnFlag":1,"ProjectFiles":[%q]}`, r.Files[0])
 	}
 }
+
+// scOpenSteps opens the files of a program. A seeded fifth of the single-file programs arrive as an unsaved edit: the
+// file on disk (and the text first opened) is an older, unrelated version, and a didChange replaces the whole document
+// with the program; nothing is saved. The questions are then about the text in the editor.
+func scOpenSteps(pc *proto.Case, r *scRender) {
+	localsOnly := true // (which text a global's workspace-wide table reflects before a save is not settled by the statements)
+	for _, o := range r.Occ {
+		if o.Role == "gdef" || ((o.Role == "use" || o.Role == "write") && o.B == 0) {
+			localsOnly = false
+		}
+	}
+	if scUnsaved && localsOnly && len(r.Files) == 1 && strings.TrimSpace(r.Text[0]) != "" && hash64(r.Text[0], scSeed+5)%3 == 1 {
+		stale := "local zz_stale = 1\nprint(zz_stale)\n"
+		f := r.Files[0]
+		pc.Files[f] = stale
+		pc.Steps = append(pc.Steps, openStep(f, stale), changeStep(f, 2, 0, 0, 2, 0, r.Text[0]))
+		return
+	}
+	for i, f := range r.Files {
+		pc.Steps = append(pc.Steps, openStep(f, r.Text[i]))
+	}
+	// a seeded third of the other programs are touched after opening: a comment line is appended to one file and not
+	// saved. Nothing moves and nothing changes meaning, so every answer must be what it would be without the edit.
+	if hv := hash64(strings.Join(r.Text, "\x00"), scSeed+9); scUnsaved && hv%3 == 0 {
+		i := int(hv>>8) % len(r.Files)
+		t := r.Text[i]
+		nl := strings.Count(t, "\n")
+		col, ins := 0, "-- touched\n"
+		if !strings.HasSuffix(t, "\n") && t != "" {
+			col = len(t) - strings.LastIndex(t, "\n") - 1
+			ins = "\n-- touched\n"
+		}
+		pc.Steps = append(pc.Steps, changeStep(r.Files[i], 2, nl, col, nl, col, ins))
+	}
+}
+
+// scUnsaved switches the unsaved-edit arrival on (development aid: VERIF_UNSAVED=0 turns it off).
+var scUnsaved = os.Getenv("VERIF_UNSAVED") != "0"
 
 func scFileName(i int) string { return scModName(i) + ".lua" }
 
